@@ -198,7 +198,13 @@ def format_code(
             for funcdef in core.filter_nodes(node.body, fdef_types)
         }
         assignments = {node.id for node in parsing.iter_assignments(module)}
-        preserve = set(preserve) | defs | class_funcs | assignments
+        class_members = {  # Names bound directly in the body of a class definition in module scope
+            member
+            for node in core.filter_nodes(module.body, ast.ClassDef)
+            for member in [funcdef.name for funcdef in core.filter_nodes(node.body, fdef_types)]
+            + [name.id for name in parsing.iter_assignments(node)]
+        }
+        preserve = set(preserve) | defs | class_funcs | assignments | class_members
 
     if minimum_indent == 0:
         source = fixes.add_missing_imports(source)
